@@ -22,6 +22,13 @@ fn gen_priority() -> Priority {
     rng.next_raw() as Priority
 }
 
+/// Verification hook: put the process-wide priority generator back to its initial state, so that a
+/// harness can replay histories against the known priority stream. Not part of the library API.
+#[cfg(feature = "verif")]
+pub fn verif_reset_priorities() {
+    *RNG.lock().unwrap_or_else(|e| e.into_inner()) = Rng::from_seed(42);
+}
+
 pub struct TreapNode<T> {
     pub item: T,
     pub priority: Priority,
